@@ -97,3 +97,64 @@ package oned
 //@   loop 0: invariant 0 <= rangepos && rangepos <= len(contents)
 //@   loop 0: invariant forall k int :: 0 <= k && k < rangepos ==> isDigitAt(contents, k)
 //@   loop 0: decreases len(contents) - rangepos
+
+//@ func (ean13Encoder) encodeWithHints(contents string, hints map[gozxing.EncodeHintType]interface{}) (r []bool, e error)
+//@   property C10 C03
+//@   opt fuel=8
+//@   globals ean13Reader_FIRST_DIGIT_ENCODINGS, UPCEANReader_L_AND_G_PATTERNS, UPCEANReader_L_PATTERNS
+//@   assert call(onedWriter_checkNumeric, 0): len(contents) == 13 && (allDigits(contents) ==> dig(contents, 12) == mod10(substr(contents, 0, 12)))
+
+//@ func (ean8Encoder) encodeWithHints(contents string, hints map[gozxing.EncodeHintType]interface{}) (r []bool, e error)
+//@   property C10 C03
+//@   opt fuel=8
+//@   globals UPCEANReader_L_PATTERNS
+//@   assert call(onedWriter_checkNumeric, 0): len(contents) == 8 && (allDigits(contents) ==> dig(contents, 7) == mod10(substr(contents, 0, 7)))
+
+// ---------------------------------------------------------------- add-on (EAN-5) check value and parity tables (C10)
+
+//@ func (this *UPCEANExtension5Support) extensionChecksum(s string) (r int)
+//@   property C10
+//@   requires len(s) <= 16 && allDigits(s)
+//@   ensures r == (3 * (3 * dsum(s, len(s) - 2) + dsum(s, len(s) - 1))) % 10 && 0 <= r && r <= 9
+//@   modifies nothing
+//@   loop 0: invariant length == len(s) && -2 <= i && i <= length - 2 && (length - 2 - i) % 2 == 0
+//@   loop 0: invariant sum == dsum(s, length - 2) - dsum(s, i) && 0 <= sum
+//@   loop 0: decreases i + 2
+//@   loop 1: invariant length == len(s) && -2 <= i && i <= length - 1 && (length - 1 - i) % 2 == 0
+//@   loop 1: invariant sum == 3 * dsum(s, length - 2) + dsum(s, length - 1) - dsum(s, i) && 0 <= sum
+//@   loop 1: decreases i + 2
+
+//@ func (this *UPCEANExtension5Support) determineCheckDigit(lgPatternFound int) (r int, e error)
+//@   property C10
+//@   globals checkDigitEncodings
+//@   ensures e == nil ==> 0 <= r && r < 10 && checkDigitEncodings[r] == lgPatternFound
+//@   ensures e != nil ==> forall d int :: 0 <= d && d < 10 ==> checkDigitEncodings[d] != lgPatternFound
+//@   modifies nothing
+//@   loop 0: invariant 0 <= d && d <= 10
+//@   loop 0: invariant forall d2 int :: 0 <= d2 && d2 < d ==> checkDigitEncodings[d2] != lgPatternFound
+//@   loop 0: decreases 10 - d
+
+// parity tables: the ten EAN-5 check patterns are distinct 5-bit words with exactly two G (set) positions; the UPC-E
+// number-system-1 patterns are the EAN-13 first-digit patterns (0 -> 0x07), and number system 0 is their complement
+//@ lemma ean5Parities(i int, j int)
+//@   property C10
+//@   globals checkDigitEncodings
+//@   proof cases i 0 9, j 0 9
+//@   ensures len(checkDigitEncodings) == 10 && hamming(checkDigitEncodings[i], 0, 5) == 2 && 0 <= checkDigitEncodings[i] && checkDigitEncodings[i] < 32
+//@   ensures i != j ==> checkDigitEncodings[i] != checkDigitEncodings[j]
+
+//@ lemma upceParities(d int)
+//@   property C10
+//@   globals upce_NUMSYS_AND_CHECK_DIGIT_PATTERNS, ean13Reader_FIRST_DIGIT_ENCODINGS
+//@   proof cases d 0 9
+//@   ensures len(upce_NUMSYS_AND_CHECK_DIGIT_PATTERNS) == 2 && len(upce_NUMSYS_AND_CHECK_DIGIT_PATTERNS[0]) == 10 && len(upce_NUMSYS_AND_CHECK_DIGIT_PATTERNS[1]) == 10 && len(ean13Reader_FIRST_DIGIT_ENCODINGS) == 10
+//@   ensures upce_NUMSYS_AND_CHECK_DIGIT_PATTERNS[1][d] == (d == 0 ? 7 : ean13Reader_FIRST_DIGIT_ENCODINGS[d])
+//@   ensures upce_NUMSYS_AND_CHECK_DIGIT_PATTERNS[0][d] == 63 - upce_NUMSYS_AND_CHECK_DIGIT_PATTERNS[1][d]
+//@   ensures hamming(upce_NUMSYS_AND_CHECK_DIGIT_PATTERNS[1][d], 0, 6) == 3
+
+// EAN-13 first-digit parity patterns as printed in the GS1 specification (L=0, G=1 for digits 2..7 of the symbol)
+//@ lemma ean13Parities()
+//@   property C10 C03
+//@   globals ean13Reader_FIRST_DIGIT_ENCODINGS
+//@   let t = ean13Reader_FIRST_DIGIT_ENCODINGS
+//@   ensures t[0] == 0 && t[1] == 11 && t[2] == 13 && t[3] == 14 && t[4] == 19 && t[5] == 25 && t[6] == 28 && t[7] == 21 && t[8] == 22 && t[9] == 26
